@@ -222,6 +222,11 @@ func SplitStatementToPieces(blob string) (pieces []string, err error) {
 			}
 			return
 		default:
+			// a byte that starts no token is reported as `invalid` without being consumed:
+			// step over it, otherwise this loop never ends
+			if tokenizer.r.p.Offset == pos.Offset && !tokenizer.r.eof() {
+				tokenizer.r.inc()
+			}
 			emptyStatement = false
 		}
 	}
